@@ -12,6 +12,7 @@ import (
 type Loader struct {
 	targetsDir string
 	cache      map[string]*RawConfig
+	loading    map[string]bool // targets whose inheritance is being resolved (cycle detection)
 }
 
 // NewLoader creates a new target configuration loader
@@ -55,10 +56,20 @@ func (l *Loader) LoadRaw(name string) (*RawConfig, error) {
 
 // Load loads a target configuration with inheritance resolved
 func (l *Loader) Load(name string) (*Config, error) {
+	if l.loading[name] {
+		return nil, fmt.Errorf("circular inheritance detected at target %s", name)
+	}
+
 	raw, err := l.LoadRaw(name)
 	if err != nil {
 		return nil, err
 	}
+
+	if l.loading == nil {
+		l.loading = make(map[string]bool)
+	}
+	l.loading[name] = true
+	defer delete(l.loading, name)
 
 	return l.resolveInheritance(raw)
 }
